@@ -193,7 +193,7 @@ def is_leaf_spec(sp):
 def safe(f):
     try:
         return ("ok", f())
-    except (ValueError, TypeError, AssertionError) as e:
+    except (ValueError, TypeError, AssertionError, KeyError, AttributeError) as e:
         return ("raises", type(e).__name__)
 
 
@@ -333,6 +333,34 @@ def _analyze(tier, seed):
         add("spec_generate_io", e_sp, [1] + specenc.enc_value(gv), dict(op="generate", origin=origin, role=role, spec=repr(sp)[:200]))
         if nontrivial(sp):
             res.distinct.add(("generate", h))
+        # structure mismatch (nested specs): a value with a field the spec does not declare, or lacking a declared field, must be
+        # rejected -- "validate accepts exactly the values whose structure ... matches"
+        if not is_leaf_spec(sp):
+            base = rvalue_tree(rng, sp, "valid")
+            if isinstance(base, dict) and base:
+                def at_level(d, f, depth):
+                    """apply f to the dict at a random nesting level"""
+                    subs = [k for k, x in d.items() if isinstance(x, dict) and x]
+                    if subs and depth < 2 and rng.random() < 0.5:
+                        k = subs[int(rng.integers(0, len(subs)))]
+                        return {kk: (at_level(x, f, depth + 1) if kk == k else x) for kk, x in d.items()}
+                    return f(d)
+                first_leaf = lambda d: next(iter(d.values()))
+                variants = [("extra-field", at_level(base, lambda d: dict(d, zz_not_in_spec=first_leaf(d)), 0)),
+                            ("missing-field", at_level(base, lambda d: {k: x for k, x in list(d.items())[1:]}, 0))]
+                for vk, vv in variants:
+                    r = safe(lambda: sp.validate(wrap(vv)))
+                    if r[0] != "raises":
+                        try:
+                            r = ("ok", None) if r[0] == "ok" else r
+                        except Exception:
+                            pass
+                    res.evaluations += 1
+                    res.count("validate-structure:" + vk)
+                    res.distinct.add(("validate-structure", h, vk))
+                    if r[0] == "ok":
+                        res.fail("nested Spec.validate accepts a value whose structure does not match the spec (%s)" % vk,
+                                 dict(op="validate-structure", kind=vk, origin=origin, role=role), dict(spec=repr(sp)[:300], seed=seed))
         # validate on values of every kind
         for kind in (KINDS if origin == "rand" else ["valid", "at_lo", "at_hi", "above", "below", "shape", "dtype"]):
             val = rvalue_tree(rng, sp, kind)
